@@ -159,3 +159,8 @@ PROPS["C14"] = dict(
 )
 
 NOT_CLAIMED = {}
+
+# entries still under construction by a sub-agent are not claimed in MANIFEST.json yet
+for _hold in ["C04"]:
+    if _hold in PROPS:
+        PROPS[_hold]["claimed"] = False
